@@ -33,7 +33,7 @@ add("C15", "other",
     "symbolic execution of the real code (CrossHair -> z3), per-partition 'confirmed over all paths'", "S", "DESIGN.md 3/C15", S_NOTE)
 add("C16", "model_checking",
     "Bounded model checking of QMetaData histories: all histories of 3 operations (4 in thorough) over 7 operation kinds and every parent choice "
-    "(branching), with the metadata values as unbounded solver integers; after each step lookups are compared with a reference inheritance map and "
+    "(branching), plus five-step linear histories with three QMetaData calls (incl. a key set to None) on different nodes, with the metadata values as unbounded solver integers; after each step lookups are compared with a reference inheritance map and "
     "the AST/dump/hash received by executors with the twin history without QMetaData. Verdict per partition from CrossHair/z3 over all paths.",
     "symbolic execution of the real code over symbolic histories (CrossHair -> z3)", "S", "DESIGN.md 3/C16", S_NOTE)
 add("C17", "translation_validation",
@@ -63,7 +63,7 @@ add("C18", "translation_validation",
     "symbolic execution of the real code (CrossHair -> z3) + SMT translation validation (z3)", "S+T", "DESIGN.md 3/C18", S_NOTE)
 add("C20", "other",
     "Bounded symbolic execution (CrossHair/z3) of calc_ast_hash on pairs (A,B) where B is derived from A by a solver-split relation (rebuild, text round trip, "
-    "non-field annotations, one of 8 single edits, same edit on both); hashes must be equal iff structurally identical. Leaves are bounded and case-split "
+    "non-field annotations on every node, one of 14 single edits incl. 'same child in another optional slot' and 're-nesting the last element of a list', same edit on both, shallow copy, in-place edit between two hash computations); hashes must be equal iff structurally identical. Leaves are bounded and case-split "
     "(repr/md5 are C code). Cross-process stability and the three ways of supplying a lambda are checked concretely per run.",
     "symbolic execution of the real code (CrossHair -> z3), per-partition 'confirmed over all paths'", "S", "DESIGN.md 3/C20", S_NOTE)
 
@@ -85,13 +85,13 @@ add("C10", "other",
     "symbolic execution of the real code (CrossHair -> z3), per-partition 'confirmed over all paths'", "S", "DESIGN.md 3/C10", S_NOTE)
 add("C11", "model_checking",
     "Bounded model checking of derive/execute histories (3 operations quick, up to 4 thorough, over a forest rooted in a typed and an untyped dataset, "
-    "lambda ASTs shared between steps) by symbolic execution of the whole library path; after every step the identity+structure snapshot and item type of "
+    "one ast.Lambda object and one Python function object shared by all steps whatever the item type, streams kept by callbacks observed too) by symbolic execution of the whole library path; after every step the identity+structure snapshot and item type of "
     "every live stream must be unchanged.",
     "symbolic execution of the real code over symbolic histories (CrossHair -> z3)", "S", "DESIGN.md 3/C11", S_NOTE)
 add("C12", "model_checking",
     "Bounded model checking of execution schedules: which prepared streams are executed (up to 3 concurrently), the completion order of their executors "
-    "(coroutines stepped by hand, executor suspended on a gate), the failing execution, override executors and the title (symbolic string) are solver "
-    "variables; oracle: one executor call per execution on the right executor with the stream's query minus empty MetaData and the very title, result or "
+    "(coroutines stepped by hand, executor suspended on a gate), the failing execution, override executors (a falsy callable object returning a non-coroutine awaitable) and the title (symbolic string) are solver "
+    "variables; oracle: one executor call per execution on the right dataset OBJECT / override with the stream's query minus empty MetaData and the very title, result or "
     "exception delivered to the right awaiter; root lookup. value() through make_sync is exercised concretely.",
     "symbolic execution of the real code over symbolic schedules (CrossHair -> z3)", "S", "DESIGN.md 3/C12", S_NOTE)
 
@@ -104,7 +104,7 @@ add("C01", "translation_validation",
     "SMT translation validation of the emitted query against the user's chain (z3, QF_UFLIA)", "T", "DESIGN.md 3/C01", T_NOTE)
 add("C04", "other",
     "Bounded symbolic execution (CrossHair/z3) of capture rewriting on real closures: the captured value (Union[int, bool, str, float, bytes] or a "
-    "non-transportable stand-in), the other captured ints and a post-call rebinding history are symbolic over 20 scoping shapes; oracle is the harness's own "
+    "non-transportable stand-in), the other captured ints and a post-call rebinding history are symbolic over 34 scoping shapes (every parameter kind, defaults, := targets, methods called on captured values); oracle is the harness's own "
     "scope analysis (exactly the free occurrences become constants holding the value itself; ValueError exactly for non-transportable values).",
     "symbolic execution of the real code (CrossHair -> z3), per-partition 'confirmed over all paths'", "S", "DESIGN.md 3/C04", S_NOTE)
 add("C05", "translation_validation",
@@ -120,8 +120,8 @@ add("C08", "other",
     "solver contributes exhaustiveness of the decoded space.",
     "symbolic execution of the real code (CrossHair -> z3), per-partition 'confirmed over all paths'", "S", "DESIGN.md 3/C08", S_NOTE)
 add("C09", "other",
-    "Bounded symbolic execution (CrossHair/z3) of the callback machinery: a symbolic 7-bit mask decides which of 7 call sites (class, method, both, rewriting "
-    "method callback, function processor, parameterized property, none) are present at depth 0-2 in three placements; the property's parameter is an unbounded "
+    "Bounded symbolic execution (CrossHair/z3) of the callback machinery: a symbolic 9-bit mask decides which of 9 call sites (class, method, both, rewriting "
+    "method callback, rewriting function processor, parameterized property, inherited method of a decorated subclass, chained rewritten receiver, none) are present at depth 0-2 in four placements (quick: every subset of <= 3 sites and all 9); the property's parameter is an unbounded "
     "symbolic int that must reach the callback by value; oracle: invocation log, class-before-method, MetaData tags on the args[0] chain, emitted rewrite.",
     "symbolic execution of the real code (CrossHair -> z3), per-partition 'confirmed over all paths'", "S", "DESIGN.md 3/C09", S_NOTE)
 
